@@ -1113,10 +1113,14 @@ def required_cells():
 # harness (real library on pseudo-random balanced digits) against Model/CkksData.lean, bit for bit
 LIN_KINDS = [("add", 8), ("sub", 8), ("add_assign", 6), ("sub_assign", 6), ("neg", 4), ("neg_assign", 2),
              ("mul_pow2", 4), ("mul_pow2_assign", 3), ("div_pow2", 4), ("div_pow2_assign", 2),
-             ("rescale", 6), ("rescale_assign", 4), ("align", 3)]
+             ("rescale", 6), ("rescale_assign", 4), ("align", 3),
+             ("add_pt_znx", 4), ("sub_pt_znx", 3), ("add_pt_znx_assign", 3), ("sub_pt_znx_assign", 3)]
+MUL_KINDS = [("mul", 8), ("mul_assign", 4), ("square", 4), ("square_assign", 2), ("mul_pt_znx", 5), ("mul_pt_znx_assign", 3),
+             ("add_many", 5), ("dot_ct", 8), ("dot_pt_znx", 4)]
+NEEDS_KEY = ("mul", "mul_assign", "square", "square_assign", "dot_ct")
 
 
-def data_programs(rng, count, max_steps):
+def data_programs(rng, count, max_steps, with_mul=False):
     lines = []
     for p in range(count):
         be, q0 = BACKENDS[p % 4]
@@ -1132,13 +1136,28 @@ def data_programs(rng, count, max_steps):
             if rng.chance(1, 3):
                 b = cap - d                                        # full ciphertext
             pool.append((size, d, b))
+        if with_mul:
+            # ciphertexts a product accepts: log_delta below the budgets, a few limbs of budget
+            np_ = rng.range(4, 6)
+            lo = 3 if q >= 30 else 5
+            dl = rng.range(4, min(30, q))
+            pool = []
+            for _ in range(np_):
+                size = rng.range(lo, lo + 3)
+                cap = size * q
+                d = dl if rng.chance(3, 4) else rng.range(4, min(30, q))
+                b = rng.range(min(cap - d, 3 * d), cap - d)
+                if rng.chance(1, 3):
+                    b = cap - d
+                pool.append((size, d, b))
+        kinds = LIN_KINDS + (MUL_KINDS * 2 if with_mul else [])
         sim = Sim(q, [], 53, pool)
         ops = []
         for _ in range(rng.range(4, max_steps)):
             for _try in range(8):
-                tot = sum(w for _, w in LIN_KINDS)
+                tot = sum(w for _, w in kinds)
                 x = rng.below(tot)
-                for name, w in LIN_KINDS:
+                for name, w in kinds:
                     if x < w:
                         break
                     x -= w
@@ -1149,8 +1168,28 @@ def data_programs(rng, count, max_steps):
                 cd = sim.pool[d]
                 ca = sim.pool[a]
                 bits = rng.choice([0, 1, 3, rng.range(0, 2 * q)])
-                if name in ("add", "sub"):
+                if name in ("add", "sub", "mul"):
                     c = [name, d, a, b]
+                elif name in ("mul_assign", "square"):
+                    c = [name, d, a]
+                elif name == "square_assign":
+                    c = [name, d]
+                elif name in ("mul_pt_znx", "mul_pt_znx_assign", "dot_pt_znx"):
+                    src = cd if name == "mul_pt_znx_assign" else ca
+                    pd_ = rng.range(2, min(30, max(2, src.b)))
+                    pb_ = rng.range(0, q)
+                    if name == "mul_pt_znx":
+                        c = [name, d, a, pd_, pb_, q]
+                    elif name == "mul_pt_znx_assign":
+                        c = [name, d, pd_, pb_, q]
+                    else:
+                        k_ = rng.range(1, 3)
+                        c = [name, d, k_] + [rng.choice(others) for _ in range(k_)] + [pd_, pb_, q]
+                elif name == "add_many":
+                    c = [name, d] + [rng.choice(others) for _ in range(rng.range(1, 4))]
+                elif name == "dot_ct":
+                    k_ = rng.range(1, 3)
+                    c = [name, d, k_] + [rng.choice(others) for _ in range(2 * k_)]
                 elif name in ("add_assign", "sub_assign", "neg", "align"):
                     c = [name, d, a]
                 elif name == "neg_assign":
@@ -1159,6 +1198,16 @@ def data_programs(rng, count, max_steps):
                     c = [name, d, a, bits]
                 elif name in ("mul_pow2_assign", "div_pow2_assign"):
                     c = [name, d, bits]
+                elif name in ("add_pt_znx", "sub_pt_znx", "add_pt_znx_assign", "sub_pt_znx_assign"):
+                    src = ca if name in ("add_pt_znx", "sub_pt_znx") else cd
+                    pd_ = rng.range(2, 40)
+                    # a plaintext that can be aligned: log_budget + pt.log_delta >= pt.max_k (mostly)
+                    base = (src.b + pd_) // q * q                    # largest max_k the ciphertext can be aligned with
+                    if base > q and rng.chance(1, 3):
+                        base -= q
+                    tot = max(1, base - rng.range(0, q - 1) + (q if rng.chance(1, 10) else 0))
+                    pb_ = max(0, min(tot, 5 * q) - pd_)
+                    c = ([name, d, a] if name in ("add_pt_znx", "sub_pt_znx") else [name, d]) + [pd_, pb_, q]
                 elif name == "rescale":
                     c = [name, d, rng.range(0, ca.b + (1 if rng.chance(1, 8) else 0)), a]
                 else:
@@ -1171,7 +1220,8 @@ def data_programs(rng, count, max_steps):
             sim.step(toks)
             ops.append(",".join(toks))
         ps = "/".join(f"{s_}:{d_}:{b_}" for (s_, d_, b_) in pool)
-        lines.append(f"be={be} n={n} base2k={q} maxprec=53 keys=- pool={ps} dump=1 seed={p + 1} ops=" + ";".join(ops))
+        nk = int(any(o.split(",")[0] in NEEDS_KEY for o in ops))
+        lines.append(f"be={be} n={n} base2k={q} maxprec=53 keys=- pool={ps} dump=1 needkey={nk} big={int(be.startswith('ntt'))} seed={p + 1} ops=" + ";".join(ops))
     return lines
 
 
@@ -1188,14 +1238,35 @@ def run_data(ctx, binp, drv, lines):
     for k, l in enumerate(lines):
         st = impl.get(k, ["?"])
         init = st[0][5:] if st and st[0].startswith("init#") else ""
-        mids.append(f"{k} ckks {l} data={init}")
+        key = ""
+        if len(st) > 1 and st[1].startswith("key#"):
+            key = " key=" + st[1][4:]
+            st = [st[0]] + st[2:]
+            impl[k] = st
+        # ZNX plaintext operands: the harness draws their limbs and prints them after `%`; hand them to the model
+        kvp = l.split(" ops=")
+        ops_ = kvp[1].split(";") if len(kvp) > 1 else []
+        for j, o in enumerate(ops_):
+            if "_pt_znx" in o.split(",")[0]:
+                got = st[j + 1] if j + 1 < len(st) else ""
+                ops_[j] = o + "," + (got.split("%")[1] if "%" in got else "-")
+        mids.append(f"{k} ckks {kvp[0]} data={init}{key} ops=" + ";".join(ops_))
     rc1, mout, e1 = ctx.run_lines(drv, [], mids)
     model = {}
     for l in mout:
         t = l.split()
         if len(t) >= 2:
             model[int(t[0])] = t[1].split("|")
-    return [(model.get(k, ["?"]), impl.get(k, ["?"])[1:]) for k in range(len(lines))]
+    out = []
+    for k in range(len(lines)):
+        m = model.get(k, ["?"])
+        i = [x.split("%")[0] for x in impl.get(k, ["?"])[1:]]
+        if m and m[-1].endswith("@#?"):
+            # an `Err` of a multiplication / composite: outcome and error fields are compared, the program ends there
+            j = len(m) - 1
+            i = i[:j] + ([i[j].split("@")[0] + "@#?"] if j < len(i) else [])
+        out.append((m, i))
+    return out
 
 
 def data_cell(q, prev, op, got):
@@ -1222,6 +1293,10 @@ def data_cell(q, prev, op, got):
         if name == "rescale":
             d, a = st[int(f[1])], st[int(f[3])]
             return (name, kind, "-", a[0] + a[1] - int(f[2]) > d[2] * q, a[2] > d[2])
+        if name in ("add_pt_znx", "sub_pt_znx"):
+            d, a = (st[int(x)] for x in f[1:3])
+            off = max(0, a[0] + a[1] - d[2] * q)
+            return (name, kind, "-", off > 0, a[2] > d[2])
         if name == "align":
             a, b = (st[int(x)] for x in f[1:3])
             return (name, kind, "a<b" if a[1] < b[1] else "a>=b", False, False)
@@ -1247,12 +1322,36 @@ def data_scenarios():
                 (f"2:{q//2}:{q//2}/3:{q//2}:{q+3}/3:{q//2}:{q//2}/3:{q//2}:3", "add_assign,0,1;sub_assign,0,2;add_assign,0,3;sub_assign,0,1;sub_assign,0,3;add_assign,0,2"),
                 # unary into a narrower destination, rescale paying the offset, division
                 (f"4:{q}:{2*q+5}/2:0:0/1:0:0", f"neg,1,0;mul_pow2,1,0,{q+3};div_pow2,1,0,7;rescale,1,{q+1},0;rescale,2,{q},0;neg,2,0;div_pow2,2,0,{2*q}"),
+                # plaintext addends: aligned (shift 0), shifted, narrower destination, alignment error
+                (f"3:{q//2}:{q+4}/2:0:0/3:0:0", f"add_pt_znx_assign,0,{q//2},{q+4},{q};sub_pt_znx_assign,0,{q//2},4,{q};add_pt_znx,1,0,{q//2},3,{q};sub_pt_znx,2,0,{q//3},{q},{q};add_pt_znx_assign,1,{q},{3*q},{q}"),
                 # align both ways, then add / sub on aligned operands
                 (f"3:{q//2}:{q+9}/3:{q//2}:{q}/3:0:0", "align,0,1;add,2,0,1;align,1,0;rescale_assign,1,4;align,0,1;sub,2,0,1"),
             ]
             for pool, ops in progs:
                 k += 1
                 out.append(f"be={be} n=16 base2k={q} maxprec=53 keys=- pool={pool} dump=1 seed={1000 + k} ops={ops}")
+        # products and composites (tensor + relinearise, plaintext product, un-normalised accumulation); `d` = log_delta
+        q = q0
+        d = 20 if q == 52 else 8
+        s_ = 3 if q == 52 else 6
+        cap = s_ * q
+        mprogs = [
+            # plain products, full and with a narrower destination; square; in place
+            (f"{s_}:{d}:{cap-d}/{s_}:{d}:{cap-d}/{s_}:0:0/{s_-1}:0:0", "mul,2,0,1;mul,3,0,1;square,2,0;mul_assign,2,0;square_assign,2"),
+            # unequal budgets and deltas
+            (f"{s_}:{d}:{cap-d}/{s_}:{d+3}:{cap-d-3-q}/{s_}:0:0", "mul,2,0,1;mul,2,1,0;mul_pt_znx,2,0,%d,%d,%d;mul_pt_znx_assign,2,%d,0,%d" % (d, q, q, d, q)),
+            # add_many: one input, two, three with different budgets
+            (f"{s_}:{d}:{cap-d}/{s_}:{d}:{cap-d-7}/{s_}:{d}:{cap-d-q-2}/{s_}:0:0/{s_-1}:0:0", "add_many,3,0;add_many,3,0,1;add_many,3,0,1,2;add_many,4,2,1,0,1"),
+            # dot products: aligned sides; crossed budgets (uniform delta per side): the fused path rescales into buffers
+            (f"{s_}:{d}:{cap-d}/{s_}:{d}:{cap-d}/{s_}:{d}:{cap-d-5}/{s_}:{d}:{cap-d-q-1}/{s_}:0:0",
+             "dot_ct,4,2,0,1,1,0;dot_ct,4,2,0,2,3,1;dot_ct,4,2,2,0,1,3;dot_ct,4,3,0,2,3,3,1,0;dot_ct,4,1,0,1"),
+            # dot product with different deltas on one side (un-fused: accumulate_unnormalized), plaintext dot product
+            (f"{s_}:{d}:{cap-d}/{s_}:{d+2}:{cap-d-2}/{s_}:{d}:{cap-d-4}/{s_}:0:0",
+             "dot_ct,3,2,0,1,2,0;dot_pt_znx,3,2,0,2,%d,%d,%d;dot_pt_znx,3,1,1,%d,0,%d" % (d, q, q, d, q)),
+        ]
+        for pool, ops in mprogs:
+            k += 1
+            out.append(f"be={be} n=16 base2k={q} maxprec=53 keys=- pool={pool} dump=1 needkey=1 big={int(be.startswith('ntt'))} seed={2000 + k} ops={ops}")
     return out
 
 
@@ -1414,7 +1513,8 @@ def run(ctx):
         ctx.cov["roundtrip"] = {"cases": len(rt), "worst_encoder_log2_rel": worst_enc, "worst_quantised_log2_times_delta": worst_full, "bad": rt_bad}
 
         # ---- data tie: limbs after every call of the linear fragment (Model/CkksData.lean, Props/C16 §8)
-        dl = data_scenarios() + data_programs(rng.fork(), 60 if quick else 4000, 10 if quick else 14)
+        dl = (data_scenarios() + data_programs(rng.fork(), 60 if quick else 4000, 10 if quick else 14)
+              + data_programs(rng.fork(), 40 if quick else 1500, 8 if quick else 10, with_mul=True))
         dstat = {"programs": len(dl), "calls": 0, "ok": 0, "err": 0, "limbs_compared": 0, "mismatch": 0}
         dcells = {}
         for off in range(0, len(dl), 500):
